@@ -20,6 +20,9 @@ type wrapSpec struct {
 	First bool // returns the first element / a projection of the callee's result rather than the result itself
 }
 
+// wrapInnerOK: wrappers in which a stage may be replaced by the module function whose results the stage itself returns (see ruleWrapCompose)
+var wrapInnerOK = map[string]bool{"mxj.Map.Copy": true}
+
 func j2xSpecs() []wrapSpec {
 	return []wrapSpec{
 		{"j2x.JsonToMap", []string{"mxj.NewMapJson"}, false},
@@ -106,10 +109,29 @@ type mcall struct {
 }
 
 func (p *Prog) moduleCalls(fn *ssa.Function, depth int) []mcall {
+	return p.moduleCallsK(fn, depth, nil)
+}
+
+// moduleCallsK: known holds the boolean parameters of fn that the expanding call site passes as constants; blocks reached only
+// over an edge that contradicts them are not part of what this call of the helper executes.
+func (p *Prog) moduleCallsK(fn *ssa.Function, depth int, known map[*ssa.Parameter]bool) []mcall {
 	var out []mcall
+	dead := map[*ssa.BasicBlock]bool{}
+	if len(known) > 0 {
+		for _, b := range fn.Blocks {
+			for _, g := range dominatingGuards(b) {
+				ng := normGuard(g)
+				if prm, ok := ng.Cond.(*ssa.Parameter); ok {
+					if v, isK := known[prm]; isK && v != ng.Pol {
+						dead[b] = true
+					}
+				}
+			}
+		}
+	}
 	for _, in := range instrsByPos(fn) {
 		ci, ok := in.(ssa.CallInstruction)
-		if !ok {
+		if !ok || dead[in.Block()] {
 			continue
 		}
 		g := staticCallee(ci.Common())
@@ -120,7 +142,18 @@ func (p *Prog) moduleCalls(fn *ssa.Function, depth int) []mcall {
 			continue // closure call
 		}
 		if !p.Exported(g) && depth > 0 && g != fn {
-			out = append(out, p.moduleCalls(g, depth-1)...)
+			var k map[*ssa.Parameter]bool
+			for i, a := range ci.Common().Args {
+				if i < len(g.Params) && isBoolType(g.Params[i].Type()) {
+					if bv, isC := constBool(a); isC {
+						if k == nil {
+							k = map[*ssa.Parameter]bool{}
+						}
+						k[g.Params[i]] = bv
+					}
+				}
+			}
+			out = append(out, p.moduleCallsK(g, depth-1, k)...)
 			continue
 		}
 		out = append(out, mcall{ci, g, fn})
@@ -235,11 +268,37 @@ func ruleWrapCompose(p *Prog, r *Report, specs []wrapSpec) {
 			calls = p.moduleCalls(fn, 3)
 			direct = false
 		}
-		if strings.Join(names(calls), ",") != strings.Join(sp.Calls, ",") {
+		inner := ""
+		if strings.Join(names(calls), ",") != strings.Join(sp.Calls, ",") && wrapInnerOK[sp.Fn] {
+			// Copy: encoding a Map yields an object (or null), so the stages' own preambles (option resolution, the empty-input and
+			// top-level-list cases of NewMapJson) have nothing to do; calling the function a stage returns the results of is the
+			// same composition. Recorded as an assumption, not decided.
+			direct = true
+			calls = p.moduleCalls(fn, 0)
+			ns := names(calls)
+			if len(ns) == len(sp.Calls) {
+				for i := range ns {
+					if ns[i] == sp.Calls[i] {
+						continue
+					}
+					st := p.Fn(sp.Calls[i])
+					if st != nil && returnsResultsOf(st)[calls[i].Callee] {
+						inner += " " + ns[i] + " for " + sp.Calls[i]
+						ns[i] = sp.Calls[i]
+					}
+				}
+				if strings.Join(ns, ",") == strings.Join(sp.Calls, ",") {
+					r.Assume(rule, sp.Fn, "inner stages", pos, "calls"+inner+": the function whose results the documented stage returns; premise: a Map encodes as a JSON object or null, so the skipped preamble of the stage does nothing")
+				} else {
+					inner = ""
+				}
+			}
+		}
+		if inner == "" && strings.Join(names(calls), ",") != strings.Join(sp.Calls, ",") {
 			r.Bad(rule, sp.Fn, "composition", pos, fmt.Sprintf("documented composition is %v, the resolved program calls %v", sp.Calls, names(calls)))
 			continue
 		}
-		r.OK(rule, sp.Fn, "composition", pos, "calls exactly "+strings.Join(sp.Calls, " then "))
+		r.OK(rule, sp.Fn, "composition", pos, "calls exactly "+strings.Join(sp.Calls, " then ")+inner)
 		// (b) every parameter flows into an argument of a spec call (or, for First-forms, into a branch)
 		for _, prm := range fn.Params {
 			hits := reachesCallArg(fn, prm, func(c *ssa.CallCommon) bool {
@@ -674,6 +733,40 @@ func ruleWrapWriter(p *Prog, r *Report) {
 		w := &wwWalker{p: p, enc: enc, frames: map[ssa.CallInstruction]map[*wwFrame]*wwFrame{}, onStack: map[*ssa.Function]bool{}}
 		w.root = &wwFrame{fn: fn}
 		w.walk(w.root)
+		viaCore := ""
+		if len(w.encs) == 0 {
+			// the Writer form may call what the paired encoder itself is a thin wrapper of, with the same arguments: the encoder
+			// `return core(t1(params), …)` and the Writer form `core(t1(params), …)` compute the same bytes
+			if ccall := thinCore(p, enc); ccall != nil {
+				core := staticCallee(&ccall.Call)
+				w2 := &wwWalker{p: p, enc: core, frames: map[ssa.CallInstruction]map[*wwFrame]*wwFrame{}, onStack: map[*ssa.Function]bool{}}
+				w2.root = &wwFrame{fn: fn}
+				w2.walk(w2.root)
+				if len(w2.encs) == 1 {
+					same := len(w2.encs[0].call.Common().Args) == len(ccall.Call.Args)
+					encRoot := &wwFrame{fn: enc}
+					for i := 0; same && i < len(ccall.Call.Args); i++ {
+						a, okA := wwShape(p, ccall.Call.Args[i], encRoot, func(k int) int { return k }, 0)
+						b, okB := wwShape(p, w2.encs[0].call.Common().Args[i], w2.encs[0].fr, func(k int) int {
+							if k > wi {
+								return k - 1
+							}
+							if k == wi {
+								return -1
+							}
+							return k
+						}, 0)
+						if !okA || !okB || a != b {
+							same = false
+						}
+					}
+					if same {
+						w = w2
+						viaCore = p.Name(core)
+					}
+				}
+			}
+		}
 		if len(w.encs) != 1 {
 			r.Bad(rule, pr[0], "paired encoder call", pos, fmt.Sprintf("expected exactly one call of %s (directly or through the functions the Writer form delegates to), found %d", pr[1], len(w.encs)))
 			continue
@@ -681,6 +774,10 @@ func ruleWrapWriter(p *Prog, r *Report) {
 		ec := w.encs[0]
 		// receiver and arguments forwarded in order
 		okArgs := true
+		if viaCore != "" {
+			r.OK(rule, pr[0], "arguments forwarded to "+pr[1], p.Pos(ec.call.Pos()), "calls "+viaCore+", which "+pr[1]+" only wraps, with argument terms identical to the ones "+pr[1]+" builds from the same parameters")
+		}
+		if viaCore == "" {
 		var fwd []int
 		for i := range fn.Params {
 			if i != wi {
@@ -711,6 +808,7 @@ func ruleWrapWriter(p *Prog, r *Report) {
 			r.OK(rule, pr[0], "arguments forwarded to "+pr[1], p.Pos(ec.call.Pos()), "receiver and all non-writer parameters in order")
 		} else {
 			r.Bad(rule, pr[0], "arguments forwarded to "+pr[1], p.Pos(ec.call.Pos()), "the paired encoder is not called on the same receiver with the same arguments in order")
+		}
 		}
 		if len(w.writes) != 1 || w.other != 0 {
 			r.Bad(rule, pr[0], "exactly one Write", pos, fmt.Sprintf("found %d Write calls and %d other uses of the writer", len(w.writes), w.other))
@@ -1474,4 +1572,138 @@ func (p *Prog) delegatedWrite(fn *ssa.Function, w *ssa.Parameter, bytesV ssa.Val
 		return false, ""
 	}
 	return true, "delegated to " + p.Name(g) + ", which writes exactly its bytes argument once and returns the Write error"
+}
+
+// thinCore: the encoder is nothing but `return core(terms over its parameters)`: one call of a module function whose results are
+// returned position by position at every return, every other call being an unexported helper or a builtin (argument terms).
+func thinCore(p *Prog, enc *ssa.Function) *ssa.Call {
+	var core *ssa.Call
+	ok := true
+	eachInstr(enc, func(b *ssa.BasicBlock, in ssa.Instruction) {
+		ret, isRet := in.(*ssa.Return)
+		if !isRet {
+			return
+		}
+		for i, rv := range ret.Results {
+			ex, isEx := rv.(*ssa.Extract)
+			if !isEx || ex.Index != i {
+				ok = false
+				return
+			}
+			c, isC := ex.Tuple.(*ssa.Call)
+			if !isC || (core != nil && core != c) {
+				ok = false
+				return
+			}
+			core = c
+		}
+	})
+	if !ok || core == nil {
+		return nil
+	}
+	h := staticCallee(&core.Call)
+	if h == nil || !p.InModule(h) || len(h.Blocks) == 0 {
+		return nil
+	}
+	eachInstr(enc, func(b *ssa.BasicBlock, in ssa.Instruction) {
+		switch x := in.(type) {
+		case *ssa.Call:
+			if x == core {
+				return
+			}
+			if _, isB := x.Call.Value.(*ssa.Builtin); isB {
+				return
+			}
+			if g := staticCallee(&x.Call); g != nil && p.InModule(g) && !p.Exported(g) {
+				return
+			}
+			ok = false
+		case *ssa.Store, *ssa.MapUpdate, *ssa.Go, *ssa.Defer, *ssa.Send:
+			ok = false
+		}
+	})
+	if !ok {
+		return nil
+	}
+	return core
+}
+
+// wwShape: a value as a term over the positions of the root frame's parameters, constants and calls of unexported helpers.
+func wwShape(p *Prog, v ssa.Value, fr *wwFrame, posOf func(int) int, depth int) (string, bool) {
+	if depth > 12 {
+		return "", false
+	}
+	switch x := v.(type) {
+	case *ssa.Parameter:
+		for i, prm := range fr.fn.Params {
+			if prm == x {
+				if fr.parent == nil {
+					k := posOf(i)
+					if k < 0 {
+						return "", false
+					}
+					return fmt.Sprintf("P%d", k), true
+				}
+				args := fr.call.Common().Args
+				if i < len(args) {
+					return wwShape(p, args[i], fr.parent, posOf, depth+1)
+				}
+			}
+		}
+	case *ssa.Const:
+		return "k:" + x.String(), true
+	case *ssa.ChangeType:
+		return wwShape(p, x.X, fr, posOf, depth+1)
+	case *ssa.ChangeInterface:
+		return wwShape(p, x.X, fr, posOf, depth+1)
+	case *ssa.Call:
+		name := ""
+		if b, isB := x.Call.Value.(*ssa.Builtin); isB && (b.Name() == "len" || b.Name() == "cap") {
+			name = b.Name()
+		} else if g := staticCallee(&x.Call); g != nil && p.InModule(g) && !p.Exported(g) {
+			name = p.Name(g)
+		}
+		if name == "" {
+			return "", false
+		}
+		var parts []string
+		for _, a := range x.Call.Args {
+			t, ok := wwShape(p, a, fr, posOf, depth+1)
+			if !ok {
+				return "", false
+			}
+			parts = append(parts, t)
+		}
+		return name + "(" + strings.Join(parts, ",") + ")", true
+	}
+	return "", false
+}
+
+// returnsResultsOf: the module functions whose results fn hands back position by position at some return.
+func returnsResultsOf(fn *ssa.Function) map[*ssa.Function]bool {
+	out := map[*ssa.Function]bool{}
+	eachInstr(fn, func(b *ssa.BasicBlock, in ssa.Instruction) {
+		ret, ok := in.(*ssa.Return)
+		if !ok || len(ret.Results) == 0 {
+			return
+		}
+		var c *ssa.Call
+		for i, rv := range ret.Results {
+			ex, isEx := rv.(*ssa.Extract)
+			if !isEx || ex.Index != i {
+				return
+			}
+			cc, isC := ex.Tuple.(*ssa.Call)
+			if !isC || (c != nil && c != cc) {
+				return
+			}
+			c = cc
+		}
+		if c != nil {
+			if h := staticCallee(&c.Call); h != nil {
+				out[h] = true
+			}
+		}
+	})
+	return out
 }
